@@ -56,7 +56,9 @@ FAULTS = {
     'error_directive': ['error this board is not supported', '  error indented message # with hash', 'error (paren, comma', 'error x',
                         'error see C:\\Users\\me\\boards.txt', 'error 100\\% wrong \\', 'error caf\u00e9 \\x4 \\N{nothing}', 'error \\ud800'],
     'missing_include': ['include nosuch_file.asm', 'include "nosuch dir/f.asm"', 'include_bytes nosuch.bin', 'include',
-                        'include .', 'include_bytes .', 'include ..'],          # a directory is not an include file
+                        'include .', 'include_bytes .', 'include ..',          # a directory is not an include file
+                        'include ' + 'n' * 300 + '.asm', 'include_bytes ' + 'b' * 300 + '.bin', 'include ' + 'd/' * 2500 + 'f.asm',     # names the file system cannot even hold
+                        'include a\x01b.asm', 'include nosuch/../nosuch.asm', 'include /nosuch_root_dir/f.asm', 'include_bytes /dev/null/x'],
 }
 
 
@@ -263,7 +265,7 @@ def run_shard(sh, deadline):
 
 # planted lines that would emit an odd number of bytes if accepted: planted only where no pc-relative reference of the base
 # program crosses them (start / end), so that the plant stays the *only* faulty line
-ODD = {'include_bytes .', 'DB 256', 'BYTES 1 2 256', 'Pack <B 256', 'db 7 % 0', 'db 256', 'bytes 1 2 256', 'pack <B 256', 'db NOCONST', 'db 1 +* 2', 'db 3 / 1', 'include_bytes nosuch.bin'}
+ODD = {'include_bytes .', 'include_bytes ' + 'b' * 300 + '.bin', 'include_bytes /dev/null/x', 'DB 256', 'BYTES 1 2 256', 'Pack <B 256', 'db 7 % 0', 'db 256', 'bytes 1 2 256', 'pack <B 256', 'db NOCONST', 'db 1 +* 2', 'db 3 / 1', 'include_bytes nosuch.bin'}
 
 
 def plan(tier, seed):
